@@ -682,6 +682,26 @@ func signAfterLooking(rep *reporter, bases []*baseTx, keys []keyCase) {
 		if s2.Hash() != common.BytesToHash(keccak(enc2)) {
 			fail("hash-is-keccak-of-rlp", fmt.Sprintf("re-signed: reports %x, its encoding hashes to %x", s2.Hash(), keccak(enc2)))
 		}
+		// the sender of the object SignTx returned is the sender of its encoding, under the signer's own
+		// chain id and under chain id 0 (whose V has no room for the replay protection it claims)
+		for _, sg := range []types.Signer{b.s.real(), types.NewEIP155Signer(big.NewInt(0))} {
+			st, err := types.SignTx(b.c.unsigned(), sg, b.key.priv)
+			if err != nil {
+				continue // refusing to sign is fine
+			}
+			enc, _ := rlp.EncodeToBytes(st)
+			dec := new(types.Transaction)
+			if rlp.DecodeBytes(enc, dec) != nil {
+				continue
+			}
+			live, e1 := types.Sender(sg, st)
+			wire, e2 := types.Sender(sg, dec)
+			if (e1 == nil) != (e2 == nil) || live != wire {
+				fail("sender-survives-reencoding", fmt.Sprintf("SignTx returned a transaction attributed to %x (%v); after an RLP round trip it is attributed to %x (%v)", live, e1, wire, e2))
+			} else if e1 == nil && live != b.key.addr {
+				fail("sender-is-the-signing-key", fmt.Sprintf("signed by %x, attributed to %x", b.key.addr, live))
+			}
+		}
 		run.Class("sign-after-looking|" + b.s.kind)
 	})
 }
